@@ -1,12 +1,12 @@
 ---------------------------- MODULE StopgapCases ----------------------------
 (* StopgapConv.tla on particle lists drawn by the driver (seeded; up to 300 particles, non-sequential subtomogram
-   numbers).  Each case names the path it takes: in memory (export, import) or through a file (write, load). *)
+   numbers, 0-2 list operations between construction and conversion).  Each case names the path it takes: in memory (export, import) or through a file (write, load). *)
 EXTENDS StopgapConv, IOUtils
 
 Cases == ndJsonDeserialize(IOEnv.CASE_FILE)
 
 CaseInit == /\ cid \in 1..Len(Cases)
-            /\ rows = Cases[cid].rows
+            /\ rows = ApplyHist(Cases[cid].rows, Cases[cid].hist)      \* the list as it is when the conversion is called
             /\ sg = <<>> /\ back = <<>> /\ pc = "list" /\ op = [name |-> "init"]
 
 CaseNext == LET c == Cases[cid]
